@@ -537,6 +537,17 @@ func runSeq(runs, steps int, faults bool) {
 		for len(pool) < 10 {
 			q := randQ()
 			pool = append(pool, q)
+			if (q.Lo > 0 || q.Hi > 0) && rng.Intn(2) == 0 {
+				// the same request with a bound moved by less than a second (an anchor AT the bound falls out)
+				q3 := q
+				d := []int{500000000, -500000000, 1, -1, 999999999}[rng.Intn(5)]
+				if q.Lo > 0 && (q.Hi == 0 || rng.Intn(2) == 0) {
+					q3.LoD = d
+				} else {
+					q3.HiD = d
+				}
+				pool = append(pool, q3)
+			}
 			if rng.Intn(2) == 0 {
 				q2 := q
 				if q2.Max == 0 {
@@ -642,6 +653,7 @@ func runKeys(every int) {
 	ni := len(u.Instants)
 	type shape struct {
 		lo, hi   int
+		loD, hiD int // nanoseconds added to the bounds
 		fop, ff  string
 		la       bool
 		max, off int
@@ -650,6 +662,13 @@ func runKeys(every int) {
 	for lo := 0; lo <= ni; lo++ {
 		for hi := 0; hi <= ni; hi++ {
 			base = append(base, shape{lo: lo, hi: hi, ff: "predicate"})
+		}
+	}
+	// bounds that differ from an anchor of the universe by less than a second (in both directions) and by one
+	// nanosecond: windows that only a key with the full precision of the bounds tells apart
+	for x := 1; x <= ni; x++ {
+		for _, d := range []int{500000000, -500000000, 1, -1} {
+			base = append(base, shape{lo: x, loD: d, ff: "predicate"}, shape{hi: x, hiD: d, ff: "predicate"})
 		}
 	}
 	for _, op := range []string{"latest", "isTemporal", "isImmutable", "bogus"} {
@@ -667,6 +686,7 @@ func runKeys(every int) {
 	issue := func(h, pg storage.Graph, c []int, m storeops.Method, sv, cp, ov int, sh shape, pgn [2]int) {
 		q := mkQ(m.Name, m.C, sv, cp, ov)
 		q.Lo, q.Hi, q.Fop, q.La, q.Max, q.Off = sh.lo, sh.hi, sh.fop, sh.la, pgn[0], pgn[1]
+		q.LoD, q.HiD = sh.loD, sh.hiD
 		if sh.ff != "" {
 			q.Ff = sh.ff
 		}
